@@ -559,9 +559,15 @@ class atom(boolean.AndRestriction):
             # Set of flags we do not have in common:
             flags = set(self.use) ^ set(other.use)
             for flag in flags:
-                # If this is unset and we also have the set version we fail:
-                if flag[0] == "-" and flag[1:] in flags:
-                    return False
+                # If this is unset and we also have the set version we fail.
+                # Use dep defaults only matter for packages lacking the flag:
+                # such a package satisfies both only for x(+) vs -x or -x(-).
+                if flag[0] == "-":
+                    name = flag[1:].removesuffix("(+)").removesuffix("(-)")
+                    if name in flags or f"{name}(-)" in flags:
+                        return False
+                    if f"{name}(+)" in flags and flag.endswith("(+)"):
+                        return False
 
         # Remaining thing to check is version restrictions. Get the
         # ones we can check without actual version comparisons out of
